@@ -193,3 +193,19 @@ def spectral_hermitian(cx, n=2, tag="W"):
     W = (S * w[None, :]) @ numpy.conj(S.T)
     W = (W + numpy.conj(W.T)) / 2
     return W, w, S
+
+
+def grid_phase(cx, label, w, t, M):
+    """exp(i*w*t).  Symbolic mode: the solver proves the phase lemma
+    w*t == 2*pi*p/M for the integer p guessed numerically, then the exact M-th root
+    of unity is used; a lemma that fails means the returned axis is not the conjugate
+    grid, which is itself a violation (replayed numerically)."""
+    if not cx.sym:
+        return numpy.exp(1j * w * t)
+    from symnum import core, fftstub
+    from symnum.npatch import sym_pi, PI_FLOAT
+    ph = core.lift(w) * core.lift(t)
+    val = core.evalf(ph, {"pi": PI_FLOAT}, default=1.0)
+    p = int(round(val * M / (2 * PI_FLOAT)))
+    cx.prove("%s#phase" % label, ph == 2 * sym_pi() * core.lift(p) / M)
+    return fftstub.root_of_unity(p, M)
